@@ -1,6 +1,7 @@
 package checks
 
 import (
+	"bytes"
 	"fmt"
 	"net"
 	"reflect"
@@ -436,4 +437,86 @@ func ifaceAction(e reflect.Value) of.Action {
 		xfail("nested value %s is not an action", p.Type())
 	}
 	return a
+}
+
+// addrValues walks a parsed message and checks every match-field payload that
+// holds an address in a Go address type: a net.IP must be a valid address value
+// (4 or 16 bytes) and denote the bytes the payload encodes to, a
+// net.HardwareAddr must be those bytes. The tree comparison reads payloads
+// through their own encoders, which copy a fixed number of bytes and so cannot
+// see an address slice of the wrong length (ip.To16() of a 17-byte net.IP is
+// nil: the value is useless to the caller although it re-encodes correctly).
+func addrValues(v any) string {
+	var bad string
+	var walk func(rv reflect.Value, depth int)
+	checkField := func(f *of.MatchField) {
+		for _, pl := range []util.Message{f.Value, f.Mask} {
+			if pl == nil || (reflect.ValueOf(pl).Kind() == reflect.Ptr && reflect.ValueOf(pl).IsNil()) {
+				continue
+			}
+			pv := reflect.ValueOf(pl)
+			for pv.Kind() == reflect.Ptr {
+				pv = pv.Elem()
+			}
+			if pv.Kind() != reflect.Struct || pv.NumField() != 1 || !pv.Type().Field(0).IsExported() {
+				continue
+			}
+			enc, err := pl.MarshalBinary()
+			if err != nil {
+				continue
+			}
+			switch a := pv.Field(0).Interface().(type) {
+			case net.IP:
+				var norm net.IP
+				if len(enc) == 4 {
+					norm = a.To4()
+				} else if len(enc) == 16 && len(a) == 16 {
+					norm = a
+				}
+				if norm == nil || !bytes.Equal(norm, enc) {
+					bad = fmt.Sprintf("%T holds a net.IP of %d bytes (%x) for the %d wire bytes %x", pl, len(a), []byte(a), len(enc), enc)
+				}
+			case net.HardwareAddr:
+				if !bytes.Equal(a, enc) {
+					bad = fmt.Sprintf("%T holds a net.HardwareAddr of %d bytes (%x) for the %d wire bytes %x", pl, len(a), []byte(a), len(enc), enc)
+				}
+			}
+		}
+	}
+	tField := reflect.TypeOf(of.MatchField{})
+	walk = func(rv reflect.Value, depth int) {
+		if depth > 12 || bad != "" {
+			return
+		}
+		switch rv.Kind() {
+		case reflect.Ptr, reflect.Interface:
+			if !rv.IsNil() {
+				walk(rv.Elem(), depth+1)
+			}
+		case reflect.Struct:
+			if rv.Type() == tField {
+				if rv.CanAddr() {
+					checkField(rv.Addr().Interface().(*of.MatchField))
+				} else {
+					f := rv.Interface().(of.MatchField)
+					checkField(&f)
+				}
+				return
+			}
+			for i := 0; i < rv.NumField(); i++ {
+				if rv.Type().Field(i).IsExported() {
+					walk(rv.Field(i), depth+1)
+				}
+			}
+		case reflect.Slice, reflect.Array:
+			if rv.Type().Elem().Kind() == reflect.Uint8 {
+				return
+			}
+			for i := 0; i < rv.Len(); i++ {
+				walk(rv.Index(i), depth+1)
+			}
+		}
+	}
+	walk(reflect.ValueOf(v), 0)
+	return bad
 }
